@@ -399,6 +399,10 @@ func (b *Broker) setSession(client *Client, connect *packets.ConnectPacket) {
 		client.session = prevSess
 	} else {
 		if prevSess != nil {
+			// The previous session is discarded, and so are its subscriptions:
+			// the superseded connection no longer removes them.
+			topics, _, _ := prevSess.allSubscribes()
+			b.topicMgr.unsubscribe(topics, connect.ClientIdentifier)
 			prevSess.close()
 		}
 		client.session = b.sessMgr.newSessionFromConn(connect)
